@@ -199,11 +199,14 @@ func calculate(doc billable) error {
 }
 
 func calculateOrgDocumentRefs(drs []*org.DocumentRef, cur currency.Code, rr cbc.Key) {
-	for _, drs := range drs {
-		if drs.Currency != currency.CodeEmpty {
-			cur = drs.Currency
+	for _, dr := range drs {
+		// each reference is in its own currency if it names one and in
+		// the document's currency otherwise
+		c := cur
+		if dr.Currency != currency.CodeEmpty {
+			c = dr.Currency
 		}
-		drs.Calculate(cur, rr)
+		dr.Calculate(c, rr)
 	}
 }
 
